@@ -606,12 +606,15 @@ impl Scenario for Flow {
                                         stop!();
                                     }
                                 }
-                                if obs.exts != f.exts && ex.target == "C07" {
+                                // the extension list is part of what is *delivered* (C13: "recovers exactly the same ordered
+                                // extension list", C07: "its own metadata" at its own end fragment); what the status of a first
+                                // or intermediate fragment reports besides label and protocol type is not constrained
+                                if obs.exts != f.exts && is_last && ex.target == "C07" {
                                     if ex.report(Violation::new("C07", "C07.metadata", format!("{}:extensions", site_k), format!("stream {} fid {}: delivered {} extensions, sent {}", f.stream_no, f.fid, obs.exts.len(), f.exts.len()))) {
                                         stop!();
                                     }
                                 }
-                                if obs.exts != f.exts {
+                                if obs.exts != f.exts && is_last {
                                     if ex.report(Violation::new("C13", "C13.extensions_differ", site_k.clone(), format!("delivered {} extensions {:?}, sent {:?}", obs.exts.len(), obs.exts.iter().map(|e| e.0).collect::<Vec<_>>(), f.exts.iter().map(|e| e.0).collect::<Vec<_>>()))) {
                                         stop!();
                                     }
